@@ -404,7 +404,7 @@ def sql_conformance():
                 return rnd.choice([-1.5, 0.0, 0.5, 2.0])
             if kind == 'BOOLEAN':
                 return rnd.choice([0, 1])
-            return rnd.choice(['', 'a', 'ab', "it's", 'é', 'B', 'a b', '12'])
+            return rnd.choice(['', 'a', 'ab', "it's", 'é', 'B', 'a b', '12', 'a\x00b', '\x00'])
         vals = [v() for _ in range(rows)]
         colname = rnd.choice(['c', 'weird name', 'q"uote'])
         real = sqlite3.connect(':memory:')
